@@ -292,7 +292,10 @@ pub fn builtin_function<NumericTypes: EvalexprNumericTypes>(
             if start > end || end > subject.len() {
                 return Err(EvalexprError::OutOfBoundsAccess);
             }
-            Ok(Value::from(&subject[start..end]))
+            subject
+                .get(start..end)
+                .map(Value::from)
+                .ok_or(EvalexprError::OutOfBoundsAccess)
         })),
         #[cfg(feature = "rand")]
         "random" => Some(Function::new(|argument| {
